@@ -20,7 +20,7 @@ REPARSE_SITES = {
     ("sigma.processing.transformations.values.MapStringTransformation.apply_string_value", "str(val)"):
         "the printed form is only the lookup key of the mapping; what is parsed is the configured replacement text",
     ("sigma.types.SigmaRegularExpression.replace_placeholders", "str(sigmastr)"):
-        "regular expression text (parsed without escaping) is printed and re-parsed without escaping: no escape round trip involved",
+        "regular expression text (parsed without escaping) is printed and re-parsed without escaping: no escape round trip involved; handed-back placeholders are restored with insert_placeholders()",
 }
 
 
@@ -327,9 +327,12 @@ def r4_field_names(ctx) -> None:
     c01.r8_field_escaping(ctx, "C05.R7")
 
 
-def r5_reparse_sites(ctx) -> None:
+def r5_reparse_sites(ctx, rid: str = "C05.R5", placeholders: bool = False) -> None:
     r, prog = ctx.r, ctx.prog
-    r.rule("C05.R5", "sites that print a Sigma string and parse the text again (SigmaString(str(x)), SigmaString(x.to_plain()), SigmaRegularExpression(str(x))) are enumerated and reviewed; each inherits C05.R2")
+    if placeholders:
+        r.rule(rid, "printing a Sigma string flattens Placeholder parts to the text %name%: every site that prints a value and parses the text again restores them with insert_placeholders() (or only uses the text as a lookup key), so an unhandled placeholder is still refused in conversion")
+    else:
+        r.rule(rid, "sites that print a Sigma string and parse the text again (SigmaString(str(x)), SigmaString(x.to_plain()), SigmaRegularExpression(str(x))) are enumerated and reviewed; each inherits C05.R2")
     for q, f in sorted(prog.funcs.items()):
         if not f.module.name.startswith(("sigma.types", "sigma.modifiers", "sigma.processing", "sigma.rule", "sigma.conversion")):
             continue
@@ -369,14 +372,22 @@ def r5_reparse_sites(ctx) -> None:
                             seen.add(a.targets[0].id)
                             changed = True
                 for c in walk_no_nested(f.node):
-                    if isinstance(c, ast.Call) and call_name(c).split(".")[-1] in ("SigmaString", "SigmaRegularExpression") and c.args and isinstance(c.args[0], ast.Name) and c.args[0].id in seen:
+                    if isinstance(c, ast.Call) and call_name(c).split(".")[-1] in ("SigmaString", "SigmaRegularExpression") and c.args and any(isinstance(x, ast.Name) and x.id in seen for x in ast.walk(c.args[0])):
                         flows = True
             if not flows:
                 continue
             loc = f"{f.module.relpath}:{n.lineno}"
             reason = REPARSE_SITES.get((q, unparse(n)))
+            if placeholders:
+                restores = any(isinstance(c, ast.Call) and isinstance(c.func, ast.Attribute) and c.func.attr == "insert_placeholders" for c in walk_no_nested(f.node))
+                key_only = reason is not None and "lookup key" in reason
+                if restores or key_only:
+                    r.ok(rid, q, f"{unparse(n)} printed and re-parsed; " + ("placeholders restored with insert_placeholders()" if restores else "text used as lookup key only"), loc)
+                else:
+                    r.violation(rid, q, short(st, 120), "the value is printed (Placeholder parts become the text %name%) and parsed again without insert_placeholders(): a placeholder no transformation handled is emitted into the query as literal text instead of being refused", loc)
+                continue
             if reason:
                 r.ok("C05.R5", q, f"{unparse(n)} is printed and re-parsed — reviewed: {reason}; exact only as far as C05.R2 holds", loc)
             else:
                 r.violation("C05.R5", q, short(st, 120), "a Sigma string is printed to text and parsed again: unless the printer is a right inverse of the parser (C05.R2) the value changes (backslash before wildcard → literal star); the site is not in the reviewed table", loc)
-    r.floor("C05.R5", 2)
+    r.floor(rid, 2)
